@@ -9,6 +9,7 @@ use crate::props::c02::{ln_from_json, ln_to_json};
 use crate::report::{Run, Tier};
 use crate::universe as u;
 use narsese::lexical::{Narsese as LN, Sentence as LS, Task as LT, Term as LTerm};
+use narsese::enum_narsese::Narsese;
 use rayon::prelude::*;
 use serde_json::{json, Value as J};
 use std::sync::OnceLock;
@@ -316,7 +317,30 @@ pub fn run(run: &Run) {
     vals.par_iter().for_each(|v| {
         run.eval(1);
         let v2 = v.clone();
-        let Ok(s) = crate::report::quiet_catch(std::panic::AssertUnwindSafe(move || f.e.format_narsese(&v2.build()))) else { return };
+        // every formatting route (format_narsese, the per-kind formatters, the FormatTo trait on
+        // the wrapped value AND on the bare sentence / task) must print the same text
+        let routes = crate::report::quiet_catch(std::panic::AssertUnwindSafe(move || {
+            use narsese::api::FormatTo;
+            let n = v2.build();
+            let s = crate::props::c01::format_all_routes(&f, &n)?;
+            let s4 = match &n {
+                Narsese::Term(t) => t.format_to(f.e),
+                Narsese::Sentence(x) => x.format_to(f.e),
+                Narsese::Task(x) => x.format_to(f.e),
+            };
+            if s4 != s {
+                return Err(format!("format_narsese gives {s:?} but format_to on the unwrapped value gives {s4:?}"));
+            }
+            Ok(s)
+        }));
+        let s = match routes {
+            Ok(Ok(s)) => s,
+            Ok(Err(msg)) => {
+                run.violation(&format!("the ASCII formatting routes disagree: {msg}"), json!({"op": "grammar_conformance_enum", "value": v.to_json(), "text": ""}), &[]);
+                return;
+            }
+            Err(_) => return,
+        };
         distinct.add(&s);
         let k = match v.kind() { Kind::Term => "term", Kind::Sentence => "sentence", Kind::Task => "task" };
         if let Err(msg) = crate::watch::case(&s, || case(&s, k)) {
